@@ -2647,3 +2647,144 @@ def rule_G9(ctx):
                 r.finding(fpath, "refusal:%s:%s|n=%d" % (owner, label, n_), where_of[(owner, label)][0], "the %s pass constructs the error %s at %d site(s) (%s); %d reviewed%s: a further reason to refuse makes optimize / clone_data fail on data they must preserve (e.g. a 'cycle check' by address order rejects a list whose items were created after start_list)" % (
                     owner, label, n_, ", ".join(where_of[(owner, label)]), allowed, (" (" + al[owner][label]["reason"] + ")") if label in al.get(owner, {}) else ""))
     return r
+
+
+# ---------------------------------------------------------------------------------------------------------------------
+# G10  a caller that pre-filters by type before calling a look-up accessor lets through every type the accessor supports.
+#      access_with_symbol / access_with_integer dispatch on the container's type themselves; a caller that matches on the type
+#      first and answers "absent" for the rest duplicates that table - and a type missing from the duplicate (Concatenation) is
+#      answered absent without looking.
+def _accessor_types(f):
+    """type names for which the accessor's own dispatch does something else than return the unsupported-types error"""
+    best = None
+    for m in walk(f["hir"]):
+        if m.get("k") == "Match" and m.get("src") in (None, "Normal"):
+            names = [last(a[1]) for arm in m["arms"] for a in hirq.norm_pat(arm["pat"]) if a[0] == "V" and a[1] and "GarnishDataType" in a[1]]
+            if names and (best is None or len(names) > len(best[1])):
+                best = (m, names)
+    if best is None:
+        return set()
+    sup = set()
+    for arm in best[0]["arms"]:
+        unsupported = any(x.get("k") in ("Call", "MethodCall") and last(callee(x) or x.get("m") or "") == "unsupported_types" for x in walk(arm["body"]))
+        for a in hirq.norm_pat(arm["pat"]):
+            if a[0] == "V" and a[1] and "GarnishDataType" in a[1] and not unsupported:
+                sup.add(last(a[1]))
+    return sup
+
+
+def g10_sites(F, f, accessors):
+    body = Body(f)
+    out = []
+    def typed_local(e):
+        """the local whose type `e` is: `this.get_data_type(x.clone())?` -> lid of x"""
+        for o in [peel(e)] + [o_ for o_ in body.origins(e) if isinstance(o_, dict)]:
+            if o.get("k") == "MethodCall" and o.get("m") == "get_data_type" and o.get("args"):
+                a = peel(o["args"][0])
+                while a.get("k") == "MethodCall" and a.get("m") in ("clone", "to_owned"):
+                    a = peel(a["recv"])
+                if a.get("k") == "Path" and a.get("res") == "local":
+                    return a["lid"]
+        return None
+    def arg_local(a):
+        a = peel(a)
+        while a.get("k") == "MethodCall" and a.get("m") in ("clone", "to_owned"):
+            a = peel(a["recv"])
+        return a.get("lid") if a.get("k") == "Path" and a.get("res") == "local" else None
+    for m in walk(f["hir"]):
+        if m.get("k") != "Match" or m.get("src") not in (None, "Normal"):
+            continue
+        sc = peel(m.get("scrut") or {})
+        comps = sc.get("es") if sc.get("k") == "Tup" else [sc]
+        if sc.get("k") == "Path" and sc.get("res") == "local":
+            ds = [d_ for d_ in body.defs.get(sc["lid"], []) if isinstance(d_, dict) and d_.get("k") == "Tup"]
+            if len(ds) == 1:
+                comps = ds[0]["es"]
+        lids = [typed_local(c) for c in comps]
+        if not any(l is not None for l in lids):
+            continue
+        per = {}
+        for arm in m["arms"]:
+            names = [set() for _ in comps]
+            for alt in hirq.norm_pat(arm["pat"]):
+                parts = alt[1] if alt[0] == "T" else [alt]
+                if len(parts) != len(comps):
+                    continue
+                for k_, q in enumerate(parts):
+                    if q[0] == "V" and q[1] and "GarnishDataType" in q[1]:
+                        names[k_].add(last(q[1]))
+            for d, c in hirq.calls_in(arm["body"]):
+                if d not in accessors:
+                    continue
+                cont = arg_local(call_args(c)[-1]) if call_args(c) else None
+                for k_, l in enumerate(lids):
+                    if l is not None and l == cont and names[k_]:
+                        per.setdefault(d, set()).update(names[k_])
+        for d, guard in per.items():
+            # it is a FILTER when the catch-all arm answers by itself: no offer to the host, no other look-up - just "nothing"
+            silent_rest = False
+            for arm in m["arms"]:
+                if any(dd == d for dd, _c in hirq.calls_in(arm["body"])):
+                    continue
+                catch_all = any(alt == ("_",) or (alt[0] == "T" and any(q == ("_",) for k_, q in enumerate(alt[1]) if lids[k_] is not None)) for alt in hirq.norm_pat(arm["pat"]))
+                calls = [last(dd) for dd, _c in hirq.calls_in(arm["body"])]
+                if catch_all and not any(n_.startswith("defer") or n_ in ("unsupported_types",) or n_.startswith(("access_", "index_", "get_")) for n_ in calls):
+                    silent_rest = True
+            if silent_rest:
+                out.append((loc(m), d, guard))
+    return out
+
+
+def rule_G10(ctx):
+    F = ctx.F
+    r = RuleResult("G10", "type pre-filters cover the accessor: a caller that matches on the container's type before calling access_with_symbol / access_with_integer lets through every type the accessor itself supports")
+    acc = {}
+    for f in F.fns.values():
+        if f["crate"] == "garnish_lang_runtime" and f.get("name") in ("access_with_symbol", "access_with_integer") and f["kind"] != "Closure":
+            acc[f["path"]] = _accessor_types(f)
+    r.floor("look-up accessors with a type dispatch", len([1 for v in acc.values() if v]), 2)
+    n = 0
+    for f in sorted(F.fns.values(), key=lambda f: f["path"]):
+        if f["crate"] != "garnish_lang_runtime" or f["kind"] == "Closure" or f["path"] in acc:
+            continue
+        for where, d, guard in g10_sites(F, f, acc):
+            n += 1
+            missing = sorted(acc[d] - guard)
+            # the caller's own other arms may handle a type differently on purpose (symbol-list merging for Symbol / Number / SymbolList)
+            r.examine((f["path"], where, last(d)), True, {"fn": last(f["path"]), "accessor": last(d), "filter": sorted(guard), "accessor_supports": sorted(acc[d]), "missing": missing})
+            if missing:
+                r.finding(f["path"], "filter-misses:%s:%s" % (last(d), ",".join(missing)), where, "%s matches on the container's type before calling `%s` and lets through %s, but the accessor itself supports %s: for %s the caller answers without looking - a key inside a concatenation of lists is reported absent" % (last(f["path"]), last(d), sorted(guard), sorted(acc[d]), missing))
+    r.analysed["pre_filtered_accessor_calls"] = n
+    return r
+
+
+# ---------------------------------------------------------------------------------------------------------------------
+# T14b  the sort that a look-up relies on is unconditional.  BasicGarnishData keeps association cells sorted by key (binary
+#       search) with the keyed cells in front of the holes left by un-keyed items; the functions that finish such a table sort
+#       it on EVERY path that returns Ok - a sort skipped "because there is only one key" leaves that key behind a hole.
+def rule_T14b(ctx):
+    F = ctx.F
+    r = RuleResult("T14b", "the ordering sort is unconditional: a BasicGarnishData function that sorts association cells does so on every path that returns Ok")
+    n = 0
+    for f in sorted(F.fns.values(), key=lambda f: f["path"]):
+        if f["crate"] != "garnish_lang_simple_data" or "::basic::" not in f["path"] or f["kind"] == "Closure":
+            continue
+        mir = f["mir"]
+        bl = mir["blocks"]
+        def is_sort(bi, b):
+            t = b["term"]
+            return t["k"] == "Call" and last(t.get("def") or "") in ("sort_by", "sort_unstable_by", "sort_by_key", "sort", "sort_unstable")
+        if not any(not b["cleanup"] and is_sort(bi, b) for bi, b in enumerate(bl)):
+            continue
+        n += 1
+        def ok_block(bi, b):
+            return any(s["k"] == "Assign" and s["place"]["l"] == 0 and not s["place"]["p"] and s["rv"]["k"] == "Aggregate" and s["rv"].get("variant") == "Ok" for s in b["stmts"])
+        def stop(bi, b):
+            t = b["term"]
+            return is_sort(bi, b) or (t["k"] == "Call" and _always_err(F, t.get("resolved") or t.get("def")))
+        w = mirq.path_avoiding_to(mir, [0], stop, lambda bi, b: ok_block(bi, b) and not stop(bi, b))
+        r.examine((f["path"],), True, {"fn": f["path"], "ok_path_without_sort": w is not None})
+        if w is not None:
+            r.finding(f["path"], "conditional-sort", loc(bl[w[-1]]["term"]), "%s sorts the association cells only on some of its paths that return Ok: the sort also moves the keyed cells in front of the holes left by un-keyed items, so on the path that skips it (a single key that is not the first item) the header promises a key the binary search meets a hole for - the look-up fails for good" % last(f["path"]))
+    r.floor("BasicGarnishData functions that sort association cells", n, 3)
+    return r
